@@ -2304,6 +2304,13 @@ class Interp:
             raise _Raise(("ext", "StopIteration", []), "StopIteration")
         if name == "iter" and a0 is not None and a0[0] == "gen":
             return a0
+        if name == "next" and a0 is not None and a0[0] == "list" and not (len(a0) > 2 and a0[2]) and e is not None and e.args and isinstance(e.args[0], ast.GeneratorExp):
+            # next(<generator expression>[, default]): the first element it produces
+            if a0[1]:
+                return a0[1][0]
+            if len(args) > 1:
+                return args[1]
+            raise _Raise(("ext", "StopIteration", []), "StopIteration")
         if name == "next" and a0 is not None and a0[0] == "obj" and "@counter" in a0[1].fields:
             v = a0[1].fields["@counter"]
             a0[1].fields["@counter"] = v + a0[1].fields["@step"]
